@@ -309,15 +309,10 @@ def execute_metric(job):
                 name = next((nm for nm in z.namelist() if nm.startswith("gt.txt")), None)
                 rows = [] if name is None else [[float(x) for x in ln.split()] for ln in z.read(name).decode().splitlines() if ln.strip()]
                 refpos = [np.array(p["p"], dtype=float) * u for p in c["ref"]["poses"]]
-                idx, k0 = [], 0
-                for row in rows:            # the stored reference is a sub-sequence of the input reference: recover the indices
-                    pos = np.array([row[3], row[7], row[11]])
-                    k = next((k for k in range(k0, len(refpos)) if np.max(np.abs(refpos[k] - pos)) < 1e-9 * max(1.0, u)), None)
-                    if k is None:
-                        idx.append(None)
-                    else:
-                        idx.append(k)
-                        k0 = k + 1
+                idx = []
+                for row in rows:            # the stored reference holds poses of the input reference (its positions are distinct;
+                    pos = np.array([row[3], row[7], row[11]])       # with all_pairs a pose may be stored several times): recover the indices
+                    idx.append(next((k for k in range(len(refpos)) if np.max(np.abs(refpos[k] - pos)) < 1e-9 * max(1.0, u)), None))
                 if c["tool"] == "rpe":
                     idx = idx[1:]           # the first stored pose is the start of the first pair
                 ts = None
